@@ -132,6 +132,9 @@ func genExpr(t *rapid.T, g *genState, depth int, macros []string) *Expr {
 		for i, n := 0, ri(t, 2, 3, "n"); i < n; i++ {
 			e.Kids = append(e.Kids, genExpr(t, g, depth-1, macros))
 		}
+		if ri(t, 0, 5, "group") == 0 {
+			return &Expr{Kind: "group", Kids: []*Expr{e}} // explicit parentheses
+		}
 		return e
 	case k == 6:
 		e := &Expr{Kind: "alt"}
@@ -408,7 +411,7 @@ func Sample(t *rapid.T, s *Spec, e *Expr, out *[]rune, budget *int) {
 		if m := s.MacroByName(e.Ref); m != nil && *budget > 0 {
 			Sample(t, s, m.E, out, budget)
 		}
-	case "seq":
+	case "seq", "group":
 		for _, k := range e.Kids {
 			Sample(t, s, k, out, budget)
 		}
